@@ -33,6 +33,10 @@ WITH THE SOFTWARE OR THE USE OR OTHER DEALINGS IN THE SOFTWARE.
 #include <numeric>
 #include <optional>
 
+#ifdef OPENSMT_VERIF
+#include <common/VerifTrace.h>
+#endif
+
 namespace opensmt {
 
 namespace {
@@ -115,6 +119,9 @@ TPropRes CoreSMTSolver::handleNewSplitClauses(SplitClauses & splitClauses) {
             }
             if (!this->logsResolutionProof()) {
                 if (decisionLevel() == 0) {
+#ifdef OPENSMT_VERIF
+                    veriftrace::clause("l", static_cast<void const *>(&theory_handler), vec<Lit>{splitClause[notFalsifiedIndex.value()]});
+#endif
                     // MB: do not allocate, we can directly enqueue the implied literal
                     uncheckedEnqueue(splitClause[notFalsifiedIndex.value()], CRef_Undef);
                     res = TPropRes::Propagate;
@@ -182,6 +189,15 @@ CoreSMTSolver::handleSat()
             // Maybe do something someday?
         }
         CRef deducedReason = CRef_Fake;
+#ifdef OPENSMT_VERIF
+        if (veriftrace::on() and decisionLevel() == 0 and not logsResolutionProof()) {
+            // the justification of a theory fact derived at the root level (traced by THandler::getReason),
+            // followed by the unit it implies
+            vec<Lit> verifReason;
+            theory_handler.getReason(l, verifReason);
+            veriftrace::clause("l", static_cast<void const *>(&theory_handler), vec<Lit>{l});
+        }
+#endif
         if (decisionLevel() == 0 and logsResolutionProof()) {
             vec<Lit> reasonLits;
             theory_handler.getReason(l, reasonLits);
@@ -274,6 +290,9 @@ CoreSMTSolver::handleUnsat()
         resolutionProof->newTheoryClause(confl);
     }
     analyze(confl, learnt_clause, backtrack_level);
+#ifdef OPENSMT_VERIF
+    veriftrace::clause("l", static_cast<void const *>(&theory_handler), learnt_clause);
+#endif
 
     if (!logsResolutionProof()) {
         // Get rid of the temporary lemma
